@@ -107,3 +107,48 @@ def _invariants(ex, c):
 
 
 W.invariants = _invariants
+
+# ---------------------------------------------------------------------------- FSM view (DESIGN §3)
+import dawgie.tools.submit
+import dawgie.pl.state
+PRIO = W.enum(dawgie.tools.submit.Priority)
+STATUS = W.enum(dawgie.pl.state.Status)
+FSMSTATE = Enum('FsmState', list(dawgie.pl.state.FSM.states))
+FSM = Ref('FSM')
+EVENT_ = Ref('Event')
+DEFERRED = Ref('Deferred')
+W.declare_fields('FSM', priority=Opt(PRIO), changeset=Opt(ATOM), state=FSMSTATE, _FSM__transitioning=STATUS, _FSM__prior=Opt(FSMSTATE),
+                 _FSM__doctest=BOOL, crew_thread=Opt(DEFERRED), doing_thread=Opt(DEFERRED), todo_thread=Opt(DEFERRED),
+                 wait_on_crew=EVENT_, wait_on_doing=EVENT_, wait_on_todo=EVENT_, wait_timeout=REAL, open_again=BOOL)
+W.declare_fields('Event', flag=BOOL)
+W.class_path['FSM'] = 'dawgie.pl.state.FSM'
+W.declare_global('ghost.update_triggers', INT)        # ghost: number of update_trigger() calls so far
+W.declare_global('ghost.pollers_started', SetOf(ATOM))  # ghost: which pollers (crew/doing/todo) were started by this call
+
+
+def _ev_set(val):
+    def f(ex, recv, args, kwargs, line):
+        ex.set_field(recv, 'flag', val, line)
+        return None
+    return f
+
+
+W.methods[('Event', 'set')] = _ev_set(True)
+W.methods[('Event', 'clear')] = _ev_set(False)
+W.methods[('Event', 'wait')] = lambda ex, recv, args, kwargs, line: ex.get_field(recv, 'flag', line)
+W.methods[('Event', 'is_set')] = lambda ex, recv, args, kwargs, line: ex.get_field(recv, 'flag', line)
+W.methods[('Deferred', 'addCallbacks')] = lambda ex, recv, args, kwargs, line: recv
+W.methods[('Deferred', 'addErrback')] = lambda ex, recv, args, kwargs, line: recv
+W.methods[('Deferred', 'addCallback')] = lambda ex, recv, args, kwargs, line: recv
+
+
+def fsm_distinct_events(c):
+    """rep invariant of FSM.__init__: the three wait events are three distinct objects"""
+    s = z3.Const('fs', FSM.sort())
+    v = c.old
+    a, b, d = v.arr('FSM.wait_on_crew')[s], v.arr('FSM.wait_on_doing')[s], v.arr('FSM.wait_on_todo')[s]
+    return [QHyp([s], And(a != b, a != d, b != d), 'fsm.events')]
+
+
+def flag(view, fsm, which):
+    return view.f('Event.flag', view.f('FSM.wait_on_' + which, fsm))
